@@ -6,6 +6,7 @@ import (
 	"fmt"
 	"runtime/debug"
 	"strings"
+	"sync/atomic"
 
 	simdjson "github.com/minio/simdjson-go"
 )
@@ -17,7 +18,15 @@ import (
 type deadlockSentinel struct{ detail string }
 
 // hookTap, when set, sees every hook event before the scheduler (used by the sync-path deadlock monitor).
-var hookTap func(ev simdjson.SimEvent, h simdjson.SimHandle, arg int)
+var hookTap atomic.Pointer[func(ev simdjson.SimEvent, h simdjson.SimHandle, arg int)]
+
+func setTap(f func(ev simdjson.SimEvent, h simdjson.SimHandle, arg int)) {
+	if f == nil {
+		hookTap.Store(nil)
+		return
+	}
+	hookTap.Store(&f)
+}
 
 // syncDeadlockTap returns a hook tap for parses that run directly on the calling goroutine: on the
 // synchronous path a send into a full channel or a blocking receive from an empty one can never complete.
@@ -65,8 +74,8 @@ func (dc *docCase) parseGuarded(in []byte) (pj *simdjson.ParsedJson, perr error,
 	if g != nil {
 		buf = g.place(in, dc.r.C.Intn("guardend", 4) != 0)
 	}
-	hookTap = syncDeadlockTap()
-	defer func() { hookTap = nil }()
+	setTap(syncDeadlockTap())
+	defer func() { setTap(nil) }()
 	err = safely(func() error {
 		var ru *simdjson.ParsedJson
 		if dc.useReuse {
